@@ -59,6 +59,7 @@ def main():
     ap.add_argument("--checks", default=None)
     ap.add_argument("--skip-suite", action="store_true")
     ap.add_argument("--race", action="store_true", help="run the demonstration under the race detector")
+    ap.add_argument("--id", default=None, help="directory name under seeded/ (default <PROP>-<k>)")
     a = ap.parse_args()
     global RACE
     if a.race:
@@ -105,7 +106,7 @@ def main():
             print(c, "rc=%s" % rcc, lines[-2:])
     finally:
         sh("git checkout -- .", wt)
-    dst = os.path.join("/verif/seeded", "%s-%s" % (a.prop, k))
+    dst = os.path.join("/verif/seeded", a.id or "%s-%s" % (a.prop, k))
     os.makedirs(dst, exist_ok=True)
     for f in ("patch.diff", "demo_test.go", "README.md"):
         if os.path.exists(os.path.join(d, f)):
